@@ -181,6 +181,54 @@ func checkC05(P *Program, r *Result, tier string) {
 	}
 	r.require("writer acquire routine(s)", len(acquires) > 0)
 
+	// what the acquire routines guarantee (proved below as ROOM: they return with len+n ≤ cap for their own n) is
+	// made available where they are called: the buffer as it is right after acquire(k) has room for k more bytes
+	roomFacts := func(fa *FA, fn *ssa.Function) {
+		key := "P:" + fn.Params[0].Name() + ".buf"
+		var carrier ssa.Value
+		for _, b := range fn.Blocks {
+			for _, in := range b.Instrs {
+				if ld, ok := in.(*ssa.UnOp); ok && ld.Op == token.MUL && recvFieldOf(fn, ld.X) == "buf" && carrier == nil {
+					carrier = ld
+				}
+			}
+		}
+		if carrier == nil {
+			return
+		}
+		for _, c := range callsIn(fn) {
+			cc, ok := c.(*ssa.Call)
+			if !ok {
+				continue
+			}
+			isAcq := false
+			for _, g := range acquires {
+				if cc.Common().StaticCallee() == g {
+					isAcq = true
+				}
+			}
+			if !isAcq || len(cc.Common().Args) != 2 || cc.Common().Args[0] != ssa.Value(fn.Params[0]) {
+				continue
+			}
+			blk := cc.Block()
+			idx := instrIndex(cc)
+			if idx+1 >= len(blk.Instrs) {
+				continue
+			}
+			ver := fa.mem.versionAt(blk.Instrs[idx+1], key)
+			if ver == nil || ver.Kind != mClobber {
+				continue
+			}
+			d := fa.cellSlice(ver, carrier)
+			if d == nil || d.Cap == nil {
+				continue
+			}
+			if id, isAtom := singleAtom(d.Cap); isAtom {
+				a := fa.A.at(id)
+				a.Facts = append(a.Facts, ineqLE(d.Len.add(fa.expand(cc.Common().Args[1])), d.Cap))
+			}
+		}
+	}
 	// ---- CURSOR ----
 	if fn := ms["Malloc"]; fn != nil {
 		fa := A.fa(fn)
@@ -213,6 +261,7 @@ func checkC05(P *Program, r *Result, tier string) {
 	}
 	if fn := ms["WriteBinary"]; fn != nil {
 		fa := A.fa(fn)
+		roomFacts(fa, fn)
 		bs := fa.sliceDesc(fn.Params[1])
 		for _, ret := range returnsOf(fn) {
 			if c, ok := fa.nilExpand(ret.Results[1]).constVal(); !ok || c.Sign() != 0 {
@@ -220,6 +269,7 @@ func checkC05(P *Program, r *Result, tier string) {
 			}
 			cp := builtinCall(ret.Results[0], "copy")
 			ok := false
+			roomDetail := ""
 			ext := false
 			full := false
 			if cp != nil {
@@ -230,6 +280,11 @@ func checkC05(P *Program, r *Result, tier string) {
 					// is what the acquire routine guarantees: ROOM)
 					ok = fa.proveEq(dst.Off, base.Len, cp.Block()) && fa.proveEq(src.Off, linConst(0), cp.Block()) && fa.proveEq(src.Len, bs.Len, cp.Block()) &&
 						(fa.proveEq(dst.Len, base.Cap.sub(base.Len), cp.Block()) || fa.proveEq(dst.Len, bs.Len, cp.Block()))
+					// … and the whole payload fits: room for len(bs) was acquired on every way here
+					if ok && !fa.prove(ineqLE(bs.Len, base.Cap.sub(base.Len)), cp.Block(), rootCtx) {
+						ok = false
+						roomDetail = "room for the whole payload is not guaranteed where it is copied (copy would silently truncate)"
+					}
 					if cur := cellSliceAt(fa, ret, "buf"); cur != nil {
 						ext = fa.proveEq(cur.Len, base.Len.add(fa.expand(cp)), ret.Block())
 					}
@@ -277,7 +332,7 @@ func checkC05(P *Program, r *Result, tier string) {
 					ext = count
 				}
 			}
-			r.add("CURSOR", shortName(fn), "return", "payload copied into buf[len:cap] from bs[0:]", P.pos(instrPos(ret)), ok, "")
+			r.add("CURSOR", shortName(fn), "return", "payload copied into buf[len:cap] from bs[0:]", P.pos(instrPos(ret)), ok, roomDetail)
 			r.add("CURSOR", shortName(fn), "return", "buffer extended by exactly the copied count", P.pos(instrPos(ret)), ext, "")
 		}
 	}
